@@ -207,6 +207,12 @@ func checkF1(c *fw.Ctx) {
 					c.Undecided(rule, construct, "the panic is reached under a condition computed by a function from a table: "+detail)
 					continue
 				}
+				if class == "" && fn.Parent() != nil && strings.Contains(detail, "param:") && !strings.Contains(detail, "free:") {
+					// a local `must(err)` closure: whether it can fire is a matter of what its parent hands it
+					// at each call (the parent's own panics of the same kind are judged where they are inline)
+					c.Undecided(rule, construct, "the panic sits in a function literal and depends only on the literal's parameter ("+detail+"): the values handed to it by "+fw.FuncName(fn.Parent())+" were not followed")
+					continue
+				}
 				if class == "" {
 					c.Fail(rule, construct, c.P.Pos(fw.InstrPos(pn)), "a panic is reachable under a condition that is not a local caller's contract and has no validator that excludes it: "+detail)
 					continue
